@@ -603,4 +603,11 @@ def check_unit(unit, outdir, rlimit=None):
             unit.name, "\n".join(o["rendered"] for o in other)[:4000]))
     if not canary_failed:
         raise InfraError("canary verified in unit %s: vacuous context" % unit.name)
+    # every function extracted for verification must have been looked at by Verus: it is either
+    # among the verified ones or among the failures (a body that Verus skipped would count as neither)
+    n_verify = sum(1 for f in em.fns if f["mode"] == "verify")
+    n_failed = len({f["fn"]["path"] for f in failures})
+    if res["verified"] + n_failed < n_verify:
+        raise InfraError("unit %s: Verus reports %d verified + %d failed functions but %d were extracted for verification" % (
+            unit.name, res["verified"], n_failed, n_verify))
     return res
